@@ -98,7 +98,8 @@ TOFIX        alpha[i] = abs(values[i]) * 2 * Pi * rf * duration / len(values)
 
         # create operator
         name = kwargs.pop("name", f"RFPulse({len(values)}, {duration}ms)")
-        super().__init__(seq, name=name, duration=duration)
+        total = duration if np.isscalar(duration) else float(np.sum(duration))
+        super().__init__(seq, name=name, duration=total)
 
 
 def rfpulse(values, duration, rf=None, alpha=None, phi=None, **kwargs):
